@@ -400,6 +400,36 @@ func doModify(s *server.Server, sid string, ops ...*spb.AFTOperation) {
 	}
 }
 
+// doModifyAcked is doModify returning the ids acknowledged as RIB_PROGRAMMED, in order.
+func doModifyAcked(s *server.Server, sid string, ops ...*spb.AFTOperation) []uint64 {
+	resCh := make(chan *spb.ModifyResponse, 64)
+	errCh := make(chan error, 64)
+	s.VerifDoModify(sid, ops, resCh, errCh)
+	var acked []uint64
+	for {
+		sel := rt.NewSelect(true)
+		c := rt.SelRecv(sel, resCh)
+		if sel.Wait() != 0 {
+			break
+		}
+		for _, r := range c.Val().GetResult() {
+			rt.Emit("result", [3]any{sid, r.GetId(), r.GetStatus()})
+			if r.GetStatus() == spb.AFTResult_RIB_PROGRAMMED {
+				acked = append(acked, r.GetId())
+			}
+		}
+	}
+	for {
+		sel := rt.NewSelect(true)
+		c := rt.SelRecv(sel, errCh)
+		if sel.Wait() != 0 {
+			break
+		}
+		rt.Emit("rpc-error", c.Val().Error())
+	}
+	return acked
+}
+
 // getAll reads everything. strict: the caller asserts that no Flush overlaps an ADD in the scenario, so that every
 // state a network instance passes through is closed under references within the instance (an ADD racing with a Flush
 // can legitimately leave a group without its next-hop: C11 exempts modifications that a Flush overlaps).
@@ -808,6 +838,71 @@ func scenarios() []scenario {
 			}
 			return fs
 		}},
+		{name: "S12-primary-handover-during-a-batch-with-forward-references", body: func() {
+			// session a is primary and sends a batch whose first operations are forward references (held until the
+			// last one resolves them); session b announces a higher id while that batch is being applied and then
+			// programs forward references of its own. Whatever the interleaving: nobody crashes or blocks, the final
+			// election state is b's, and exactly the acknowledged operations are installed.
+			s := newServer()
+			primary(s, "a", one)
+			if err := negotiate(s, "b"); err != nil {
+				panic(err)
+			}
+			two := ID{Lo: 2}
+			g2 := ribx.NHGEntry(2, 0, [2]uint64{2, 1})
+			v6 := ribx.V6Entry("2001:db8::/32", 2, "", nil)
+			opsA := []*spb.AFTOperation{stamped(1, D, spb.AFTOperation_ADD, v4, one), stamped(2, D, spb.AFTOperation_ADD, g1, one), stamped(3, D, spb.AFTOperation_ADD, nh1, one)}
+			opsB := []*spb.AFTOperation{stamped(1, D, spb.AFTOperation_ADD, v6, two), stamped(2, D, spb.AFTOperation_ADD, g2, two), stamped(3, D, spb.AFTOperation_ADD, nh2, two)}
+			var ackA, ackB []uint64
+			var wg vsync.WaitGroup
+			wg.Add(2)
+			rt.Go("session-a", func() { defer wg.Done(); ackA = doModifyAcked(s, "a", opsA...) })
+			rt.Go("session-b", func() {
+				defer wg.Done()
+				if _, err := s.VerifRunElection("b", two.Proto()); err != nil {
+					rt.Emit("election-error", err.Error())
+				}
+				ackB = doModifyAcked(s, "b", opsB...)
+			})
+			wg.Wait()
+			rt.Quiesce()
+			m, err := ribx.Snapshot(s.VerifRIB())
+			if err != nil {
+				panic(err)
+			}
+			rt.Emit("final-rib", m.Canon())
+			want := ribx.NewModel(D, V)
+			for _, acked := range []struct {
+				ids []uint64
+				ops []*spb.AFTOperation
+			}{{ackA, opsA}, {ackB, opsB}} {
+				for _, id := range acked.ids {
+					want.Apply(acked.ops[id-1])
+				}
+			}
+			rt.Emit("final-fold", want.Canon())
+			master, id := s.VerifElection()
+			rt.Emit("final-election", fmt.Sprintf("%s (%d,%d)", master, id.GetHigh(), id.GetLow()))
+			rt.Emit("acked-by-new-primary", len(ackB))
+			afterwards(s)
+		}, check: func(x *rt.Exec) []mc.Fail {
+			fs := foldCheck(x)
+			for _, e := range x.Events {
+				switch e.Label {
+				case "final-election":
+					if e.Val.(string) != "b (0,2)" {
+						fs = append(fs, mc.Fail{Sig: "C11/quiescent-election-state-wrong", What: "after both sessions finished the election state is " + e.Val.(string) + ", want b (0,2)"})
+					}
+				case "acked-by-new-primary":
+					if e.Val.(int) != 3 {
+						fs = append(fs, mc.Fail{Sig: "C11/request-not-answered", What: fmt.Sprintf("the new primary's three operations (two forward references and the next-hop that resolves them) were acknowledged %d times", e.Val.(int))})
+					}
+				case "election-error":
+					fs = append(fs, mc.Fail{Sig: "C11/election-failed-under-concurrency", What: e.Val.(string)})
+				}
+			}
+			return fs
+		}},
 		{name: "S7-add-network-instance-vs-get-flush", body: func() {
 			s := newServer()
 			stub := wire.New(s)
@@ -941,4 +1036,43 @@ func raceReports() []raceReport {
 	}
 	sort.Slice(out, func(i, j int) bool { return out[i].sig < out[j].sig })
 	return out
+}
+
+// ReplaySchedule re-executes one recorded schedule of a C11 scenario with tracing on, prints the interleaving and the
+// harness events, and returns the oracle's verdicts for that single execution.
+func ReplaySchedule(scenarioName string, schedule []string) []mc.Fail {
+	var prefix []int
+	for _, l := range schedule {
+		l = strings.TrimSuffix(strings.TrimPrefix(l, "choices=["), "]")
+		for _, f := range strings.Fields(l) {
+			var n int
+			fmt.Sscan(f, &n)
+			prefix = append(prefix, n)
+		}
+	}
+	for _, sc := range scenarios() {
+		if sc.name != scenarioName {
+			continue
+		}
+		x := rt.Run(rt.Options{Prefix: prefix, Trace: true, SwitchCost: 1}, sc.body)
+		ci := 0
+		for _, l := range x.Trace {
+			fmt.Println("  " + l)
+		}
+		for i, c := range x.Choices {
+			if c.Chosen != 0 {
+				fmt.Printf("  deviation at choice %d (%s): alternative %d of %d  %s\n", i, c.Kind, c.Chosen, c.N, c.Label)
+				ci++
+			}
+		}
+		for _, e := range x.Events {
+			fmt.Printf("  event T%d(%s) %s = %v\n", e.Thread, e.Name, e.Label, e.Val)
+		}
+		if x.Aborted != "" {
+			fmt.Println("  aborted:", x.Aborted)
+		}
+		return sc.check(x)
+	}
+	fmt.Println("unknown scenario", scenarioName)
+	return nil
 }
